@@ -171,6 +171,14 @@ theorem isProbRowSp_accepts_negative :
     have := h.1 0 (by norm_num)
     norm_num at this
 
+/-- FULL-STRENGTH statement for the sparse validator, true of the repaired code (fixes/C05-2-sparse-isprobability-sign.diff):
+    it accepts exactly the rows the dense validators accept.  For the code as it stands only `isProbRowSp_neg_bound` holds
+    (`isProbRowSp_accepts_negative` is the counterexample to this statement for `isProbRowSp`). -/
+theorem isProbRowSpSigned_eq (tol : Rat) (n : Nat) (row : Nat → Rat) : isProbRowSpSigned tol n row = isProbRow tol n row := by
+  rw [← isProbRowE_eq]
+  unfold isProbRowSpSigned isProbRowE
+  rw [Bool.not_or]
+
 /-! ## the models the constructors accept -/
 
 /-- what passing the constructors' checks establishes: non-negative tables, rows within `tol` of one -/
@@ -214,6 +222,41 @@ theorem acceptSparse_sound {tol : Rat} (htol : 0 ≤ tol) {m : POMDP} (h : accep
     exact ((isProbRowSp_iff tol m.S _).mp (allLt_iff.mp (allLt_iff.mp hT a ha) s hs)).1
   · intro s1 a hs1 ha
     exact ((isProbRowSp_iff tol m.O _).mp (allLt_iff.mp (allLt_iff.mp hO a ha) s1 hs1)).1
+
+/-- what a SparseModel's Eigen-matrix setters accept is an `AcceptedModel` once the sign test is there … -/
+theorem sparse_setters_sound_signed {tol : Rat} {m : POMDP}
+    (hT : ∀ s a, s < m.S → a < m.A → isProbRowSpAs true tol m.S (fun s1 => m.T s a s1) = true)
+    (hO : ∀ s1 a, s1 < m.S → a < m.A → isProbRowSpAs true tol m.O (fun o => m.Ob s1 a o) = true) :
+    AcceptedModel tol m := by
+  have hT' := fun s a hs ha => (isProbRow_iff tol m.S _).mp (by rw [← isProbRowSpSigned_eq]; exact hT s a hs ha)
+  have hO' := fun s1 a hs1 ha => (isProbRow_iff tol m.O _).mp (by rw [← isProbRowSpSigned_eq]; exact hO s1 a hs1 ha)
+  exact ⟨⟨fun s a s1 hs ha hs1 => (hT' s a hs ha).1 s1 hs1, fun s1 a o hs1 ha ho => (hO' s1 a hs1 ha).1 o ho⟩,
+         fun s a hs ha => (hT' s a hs ha).2, fun s1 a hs1 ha => (hO' s1 a hs1 ha).2⟩
+
+/-- … and is NOT one as the code stands: a model every row of which passes the unsigned sparse test, on which `updateBelief`
+    (belief (1/2, 1/2), an observation of positive probability) returns a negative entry.  Witness of finding C05-2. -/
+def exNeg : POMDP :=
+  { S := 2, A := 1, O := 2,
+    T := fun s _ s1 => if s = s1 then 1 else 0,
+    Ob := fun s1 _ o => ofList2 2 [-(1/4194304), 1 + 1/4194304, 1, 0] s1 o,
+    R := fun _ _ _ => 0 }
+
+theorem sparse_setters_unsigned_counterexample :
+    (∀ s, s < 2 → isProbRowSpAs false (1/1000000) 2 (fun s1 => exNeg.T s 0 s1) = true) ∧
+    (∀ s1, s1 < 2 → isProbRowSpAs false (1/1000000) 2 (fun o => exNeg.Ob s1 0 o) = true) ∧
+    0 < probO exNeg (ofList [1/2, 1/2]) 0 0 ∧
+    updateG exNeg (ofList [1/2, 1/2]) 0 0 0 < 0 := by
+  refine ⟨?_, ?_, ?_, ?_⟩
+  · intro s hs
+    show isProbRowSp _ _ _ = true
+    rw [isProbRowSp_iff]
+    interval_cases s <;> norm_num [exNeg, sumTo, absQ]
+  · intro s1 hs1
+    show isProbRowSp _ _ _ = true
+    rw [isProbRowSp_iff]
+    interval_cases s1 <;> norm_num [exNeg, ofList2, sumTo, absQ]
+  · norm_num [probO, exNeg, ofList, ofList2, sumTo]
+  · norm_num [updateG, normalize, unnormG, exNeg, ofList, ofList2, sumTo]
 
 theorem absQ_sub_comm (a b : Rat) : absQ (a - b) = absQ (b - a) := by
   rw [absQ_eq_abs, absQ_eq_abs, abs_sub_comm]
